@@ -194,6 +194,39 @@ def data_item_values_sweep():
     return tried, diffs
 
 
+def plain_readback_sweep():
+    """plain Python values given to a data item are read back unchanged: for every data item that takes several types, a bytes value
+    (with bytes that are no text), a str, an int, a bool and a float come back as what they were - same python type, same value"""
+    import secsgem.secs.data_items as di
+    import secsgem.secs.variables as var
+    diffs, tried = [], 0
+    for name in sorted(n for n in vars(di) if n.isupper()):
+        cls = getattr(di, name)
+        if not (isinstance(cls, type) and issubclass(cls, di.DataItemBase)) or getattr(cls, "__type__", None) is not var.Dynamic:
+            continue
+        allowed = set(getattr(cls, "__allowedtypes__", []) or [])
+        ints = {var.U1, var.U2, var.U4, var.U8, var.I1, var.I2, var.I4, var.I8}
+        for value in (b"\x00\x01\xfe\xff", "abc", 7, True, 2.5, b"ab"):
+            # only values that conform to the item: one of its types is the type for this kind of python value
+            conforms = ((isinstance(value, bytes) and var.Binary in allowed) or (isinstance(value, str) and (var.String in allowed or var.JIS8 in allowed))
+                        or (isinstance(value, bool) and var.Boolean in allowed) or (type(value) is int and allowed & ints) or (isinstance(value, float) and (allowed & {var.F4, var.F8})))
+            if not conforms:
+                continue
+            try:
+                item = cls(value)
+                back = item.get()
+                fresh = cls()
+                fresh.decode(item.encode())
+                again = fresh.get()
+            except (ValueError, TypeError, IndexError, UnicodeError, OverflowError):
+                continue
+            tried += 1
+            same = (type(back) is type(value) and back == value and type(again) is type(value) and again == value)
+            if not same and len(diffs) < 6:
+                diffs.append({"data_item": name, "given": repr(value), "read_back": repr(back), "after_encode_decode": repr(again), "sent_as": item.encode()[:6].hex()})
+    return tried, diffs
+
+
 def nested_list_values_sweep():
     """Every data item that admits a list (SV, V, DVVAL, ECV ...): list values that themselves contain lists, to depth 3, built as typed
     values, compared with the E5 bytes written out here by hand, decoded by a fresh instance and encoded again."""
@@ -295,6 +328,10 @@ def run(tier, replay=None):
     if nproblems:
         report.violation({"kind": "counterexample", "what": "a list value containing lists, for a data item that admits lists, is not encoded as E5 prescribes / not decoded back", **nproblems[0],
                           "count": len(nproblems)}, True, tag="nestedlist")
+    rtried, rdiffs = plain_readback_sweep()
+    report.coverage["plain_values_read_back"] = {"combinations": rtried, "different": rdiffs}
+    if rdiffs:
+        report.violation({"kind": "counterexample", "what": "a plain python value given to a data item was not read back unchanged", **rdiffs[0], "count": len(rdiffs)}, True, tag="readback")
     tried, diffs = data_item_values_sweep()
     report.coverage["data_item_instances_as_values"] = {"combinations": tried, "different": len(diffs)}
     if diffs:
